@@ -1168,7 +1168,7 @@ Section Cover.
     { clear -Hm Hin. induction Hm as [|pe' pv ps' pvs' (s1 & s2 & l' & Hb) _ IH]; [destruct Hin|].
       destruct Hin as [->|Hin].
       - apply bind_ok in Hb as (v & s3 & l1 & l2 & Hv & Hb & _). unfold ret in Hb. inversion Hb; subst.
-        cbn [snd fst] in *. exists v. split; [now left|]. now exists s1, s3, l1.
+        cbn [snd fst] in *. exists v. split; [now left|]. do 3 eexists. exact Hv.
       - destruct (IH Hin) as (v & Hv & R). exists v. split; [now right|exact R]. }
     destruct Hex as (v & Hv & s1 & s2 & l' & He). exists v, s1, s2, l'. split; [exact He|].
     intros j -> Hj. rewrite <- Hfst in Hnd.
@@ -1201,4 +1201,106 @@ Section Cover.
     intros k' Hk'. apply (template_options_agree _ ps o st0 o' st0' l0 Ho).
     exact (proj1 (forallb_forall _ _) Hop k' Hk').
   Qed.
+
+  (** one parameter, forwards: it is evaluated under the caller's options, its value is stored in
+      its slot, and no option key changes value *)
+  Theorem template_one_param p pe o st j st1 l1 :
+    eval pe o st = (Ok (VJ j), st1, l1) -> (forall m, j <> JObj m) ->
+    template_options S (fun x => eval x o) [(p, pe)] o st = (Ok (mix o [(pname p, j)]), st1, l1) /\
+    lookup (par_key p) (JObj (mix o [(pname p, j)])) = Found j /\
+    (forall k, opt_key k = true -> lookup k (JObj (mix o [(pname p, j)])) = lookup k (JObj o)).
+  Proof.
+    intros He Hj.
+    assert (Ht : template_options S (fun x => eval x o) [(p, pe)] o st = (Ok (mix o [(pname p, j)]), st1, l1)).
+    { unfold template_options, mapM, bind, ret. cbv beta. cbn [snd fst]. rewrite He.
+      cbn [json_of_value flat_map app option_set par_key set_dotted dset length Nat.eqb negb snd fst].
+      rewrite !app_nil_r. reflexivity. }
+    split; [exact Ht|]. split.
+    - unfold par_key. fold (pname p). rewrite (lookup_mix_step (pname p) [] o [(pname p, j)] eq_refl).
+      unfold pname. cbn [dget]. rewrite seg_eqb_refl. destruct j; try reflexivity. exfalso. now apply (Hj m).
+    - exact (template_options_agree _ _ o st _ st1 l1 Ht).
+  Qed.
 End Cover.
+
+(** * escaped braces *)
+Theorem escapes_literal d o a b ea eb :
+  flatten d o a = Some ea -> flatten d o b = Some eb ->
+  flatten d o (a ++ TEscL :: b) = Some (ea ++ TEscL :: eb) /\
+  flatten d o (a ++ TEscR :: b) = Some (ea ++ TEscR :: eb) /\
+  unescape (ea ++ TEscL :: eb) = unescape ea ++ TLit 123 :: unescape eb /\
+  unescape (ea ++ TEscR :: eb) = unescape ea ++ TLit 125 :: unescape eb /\
+  refs (a ++ TEscL :: b) = refs a ++ refs b /\ refs (a ++ TEscR :: b) = refs a ++ refs b.
+Proof.
+  intros Ha Hb. repeat split.
+  - change (TEscL :: b) with ([TEscL] ++ b). rewrite !flatten_app, Ha, Hb.
+    now rewrite (flatten_plain d o [TEscL] eq_refl).
+  - change (TEscR :: b) with ([TEscR] ++ b). rewrite !flatten_app, Ha, Hb.
+    now rewrite (flatten_plain d o [TEscR] eq_refl).
+  - now rewrite unescape_app.
+  - now rewrite unescape_app.
+  - unfold refs. now rewrite flat_map_app.
+  - unfold refs. now rewrite flat_map_app.
+Qed.
+
+(** the parameter token of the specification: the string form of the slot's value, expanded *)
+Lemma deep_piece_par d o p j :
+  lookup (par_key p) (JObj o) = Found j ->
+  deep_piece (flatten d o) o (TPar p) = match to_str j with Some sv => flatten d o sv | None => None end.
+Proof. intros H. unfold deep_piece. cbn [tok_key]. now rewrite H. Qed.
+
+(** * the coarse form of the D1 side condition: a condition on the dictionary alone *)
+(** [flat o]: no templated string sits inside a container value of [o] *)
+Definition flat (o : dict) : bool := forallb (fun kv : seg * json => shallow (snd kv)) o.
+
+Lemma plain_obj_dget s : forall m v, plain_json (JObj m) = true -> dget s m = Some v -> plain_json v = true.
+Proof.
+  induction m as [|[k x] m IH]; intros v H Hd; [discriminate|].
+  change (plain_json (JObj ((k, x) :: m))) with (plain_json x && plain_json (JObj m)) in H.
+  apply andb_prop in H as [Hx Hm]. cbn [dget] in Hd. destruct (seg_eqb s k).
+  - inversion Hd. now subst.
+  - exact (IH v Hm Hd).
+Qed.
+
+Lemma plain_list_nth : forall l n v, plain_json (JList l) = true -> nth_error l n = Some v -> plain_json v = true.
+Proof.
+  induction l as [|x l IH]; intros n v H Hn; [destruct n; discriminate|].
+  change (plain_json (JList (x :: l))) with (plain_json x && plain_json (JList l)) in H.
+  apply andb_prop in H as [Hx Hl]. destruct n as [|n]; cbn [nth_error] in Hn.
+  - inversion Hn. now subst.
+  - exact (IH n v Hl Hn).
+Qed.
+
+Lemma plain_lookup : forall k v v', plain_json v = true -> lookup k v = Found v' -> plain_json v' = true.
+Proof.
+  induction k as [|s k IH]; intros v v' H Hl.
+  - cbn in Hl. inversion Hl. now subst.
+  - cbn [lookup] in Hl. destruct v as [| | | |s0|l|m]; try discriminate.
+    + destruct s as [n|i]; [discriminate|].
+      destruct (nth_error l (N.to_nat i)) as [x|] eqn:E; [|discriminate].
+      exact (IH x v' (plain_list_nth l _ x H E) Hl).
+    + destruct s as [n|i]; [|discriminate].
+      destruct (dget (SName n) m) as [x|] eqn:E; [|discriminate].
+      exact (IH x v' (plain_obj_dget _ m x H E) Hl).
+Qed.
+
+Lemma plain_shallow v : plain_json v = true -> shallow v = true.
+Proof. destruct v; intros H; try reflexivity; exact H. Qed.
+
+Lemma flat_lookup o k v : flat o = true -> k <> [] -> lookup k (JObj o) = Found v -> shallow v = true.
+Proof.
+  intros Hf Hk Hl. destruct k as [|s k]; [congruence|]. cbn [lookup] in Hl.
+  destruct s as [n|i]; [|discriminate].
+  destruct (dget (SName n) o) as [x|] eqn:E; [|discriminate].
+  pose proof (proj1 (forallb_forall _ _) Hf _ (dget_In _ _ _ E)) as Hx. cbn [snd] in Hx.
+  destruct k as [|s' k'].
+  - cbn in Hl. inversion Hl. now subst.
+  - apply plain_shallow. apply (plain_lookup (s' :: k') x v); [|exact Hl].
+    destruct x; try exact Hx; cbn [lookup] in Hl; discriminate.
+Qed.
+
+Theorem flat_flat_at o ks : flat o = true -> ~ In [] ks -> flat_at o ks = true.
+Proof.
+  intros Hf Hn. unfold flat_at. apply forallb_forall. intros k Hk.
+  destruct (lookup k (JObj o)) as [v| |] eqn:E; try reflexivity.
+  apply (flat_lookup o k v Hf); [|exact E]. intros ->. now apply Hn.
+Qed.
